@@ -142,6 +142,7 @@ def payloads(R, ctx):
     # wrapper (send-like): its call sites are the send sites (whether or not such a wrapper exists is a matter of style)
     SEND = r'crossbeam_channel::Sender::<T>::(send|try_send)$'
     sendlike = {}
+    content_only = set()      # wrappers whose parameter is the entire content of a fresh message
 
     def payload_index(name, t):
         if re.search(SEND, name):
@@ -165,6 +166,19 @@ def payloads(R, ctx):
                 if roots and all(r_[0] == 'param' for r_ in roots) and len(params) == 1 and not touched:
                     sendlike[b.path] = next(iter(params)) - 1
                     changed = True
+                    continue
+                # `fn send_control(&self, msg: &[u8]) { let mut b = pool_or_fresh(); b.extend(msg); send(b) }`: the parameter is the whole content
+                pv = ctx.ip.prov(b.path)
+                exts = [(bb2, t2) for bb2, t2 in b.calls() if re.search(r'Extend<.*>>::extend$|extend_from_slice$', callee_name(t2)) and arg_local(t2, 0) is not None
+                        and (pv.roots(arg_local(t2, 0)) & roots)]
+                others = any(re.search(r'::push$|::write_all$|::insert$', callee_name(t2)) or re.search(c01.FMT, callee_name(t2)) for _, t2 in b.calls())
+                if len(exts) == 1 and not others and not any(r_[0] == 'param' for r_ in roots):
+                    cr = pv.op_roots(exts[0][1]['args'][1])
+                    cps = {r_[1] for r_ in cr if r_[0] == 'param'}
+                    if cr and all(r_[0] == 'param' for r_ in cr) and len(cps) == 1:
+                        sendlike[b.path] = next(iter(cps)) - 1
+                        content_only.add(b.path)
+                        changed = True
     n = 0
     for b in f.fn_bodies():
         for bb, t in b.calls():
